@@ -86,3 +86,57 @@ theorem adcValue_eq_max {K} [Add K] [Mul K] [Zero K] [One K] [LT K] [DecidableLT
 
 end Det
 end Lentil
+
+namespace Lentil.Det
+section interp
+variable {K : Type} [Field K] [LinearOrder K] [IsStrictOrderedRing K]
+
+/-- a flat spectrum interpolates to its value everywhere inside its band -/
+theorem interpLin_flat (q : K) : ∀ (pts : List (K × K)) (w : K), (∀ p ∈ pts, p.2 = q) →
+    ∀ (x0 : K) (xl : K), pts.head? = some (x0, q) → pts.getLast? = some (xl, q) → 2 ≤ pts.length → x0 ≤ w → w ≤ xl →
+    interpLin pts w = q
+  | [], _, _, _, _, _, _, hlen, _, _ => by simp at hlen
+  | [_], _, _, _, _, _, _, hlen, _, _ => by simp at hlen
+  | (a0, v0) :: (a1, v1) :: rest, w, hall, x0, xl, hh, hl, _, h0, h1 => by
+    have e0 : v0 = q := hall (a0, v0) (by simp)
+    have e1 : v1 = q := hall (a1, v1) (by simp)
+    simp only [List.head?_cons, Option.some.injEq, Prod.mk.injEq] at hh
+    obtain ⟨rfl, _⟩ := hh
+    unfold interpLin
+    by_cases hin : a0 ≤ w ∧ w ≤ a1
+    · rw [if_pos hin, e0, e1]; simp
+    · rw [if_neg hin]
+      have hlt : a1 < w := by
+        by_contra hc; exact hin ⟨h0, not_lt.mp hc⟩
+      cases rest with
+      | nil =>
+        simp only [List.getLast?_cons_cons, List.getLast?_singleton, Option.some.injEq, Prod.mk.injEq] at hl
+        obtain ⟨rfl, _⟩ := hl
+        exact absurd h1 (not_le.mpr hlt)
+      | cons r rs =>
+        apply interpLin_flat q ((a1, v1) :: r :: rs) w (fun p hp => hall p (by simp at hp ⊢; tauto)) a1 xl
+        · simp [e1]
+        · simpa [List.getLast?_cons_cons] using hl
+        · simp
+        · exact le_of_lt hlt
+        · exact h1
+
+/-- interpolation does not care about the wavelength unit: scaling the grid and the query by the same `k > 0` changes nothing -/
+theorem interpLin_scale (k : K) (hk : 0 < k) : ∀ (pts : List (K × K)) (w : K),
+    interpLin (pts.map fun p => (p.1 * k, p.2)) (w * k) = interpLin pts w
+  | [], _ => rfl
+  | [_], _ => rfl
+  | (a0, v0) :: (a1, v1) :: rest, w => by
+    have ih := interpLin_scale k hk ((a1, v1) :: rest) w
+    simp only [List.map_cons] at ih ⊢
+    unfold interpLin
+    have c1 : (a0 * k ≤ w * k ∧ w * k ≤ a1 * k) ↔ (a0 ≤ w ∧ w ≤ a1) := by
+      rw [mul_le_mul_iff_of_pos_right hk, mul_le_mul_iff_of_pos_right hk]
+    by_cases hin : a0 ≤ w ∧ w ≤ a1
+    · rw [if_pos (c1.mpr hin), if_pos hin]
+      have : (w * k - a0 * k) / (a1 * k - a0 * k) = (w - a0) / (a1 - a0) := by
+        rw [← sub_mul, ← sub_mul, mul_div_mul_right _ _ (ne_of_gt hk)]
+      rw [mul_div_assoc, this, ← mul_div_assoc]
+    · rw [if_neg (fun h => hin (c1.mp h)), if_neg hin]; exact ih
+end interp
+end Lentil.Det
